@@ -16,6 +16,7 @@ RULE = (
     "equal the reference fixed-width public-key / nonce encoding. A cross-hash part re-uses the same L2 seed and peer key under each KDF hash in all 24 orders within one process (state kept between calls must not leak). Distinct by (config, group key, ephemeral); counts of leading-zero shared secrets / coordinates "
     "are measured and the run is vacuous if the small-group (and, thorough, the EC) counts are 0."
     ' Nonce mode also with nonces that spell other structures (DH / ECDH key blob magics, a complete 32-octet FFC DH key blob, KDSK, a DER header).'
+    ' Also equal DH public values under key lengths 2, 8, 16, 4, 2 in one process; nonce-mode envelopes whose seed keys have remarkable content (all zero, all ones, zero runs, text) at five positions.'
 )
 ASSUME = ["os.urandom supplies the ephemeral private key / nonce (if the script is not consumed the check falls back to the decrypt-side reference only)", "ref/gkdi + ref/ec calibrated (Windows vectors, cryptography point multiplication)"]
 BOUND = {
